@@ -29,9 +29,14 @@ func hasStr(l []string, s string) bool {
 	return false
 }
 
+var c02Trans func(r *Repo) []Fact
+
 func factsC02(r *Repo) []Fact {
 	cp := r.Pkg("compose")
 	var out []Fact
+	if c02Trans != nil {
+		out = append(out, c02Trans(r)...)
+	}
 	if fd, _ := cp.Func("dagChannel", "reportSkip"); fd != nil {
 		ss := stmtStrings(fd.Body)
 		out = append(out, boolFact("reportSkipMarksData", hasStr(ss, "ch.DataPredecessors[k]=true") && hasStr(ss, "ch.ControlPredecessors[k]=dependencyStateSkipped"), "compose/dag.go reportSkip: marks the control predecessor skipped and the data predecessor reported"))
@@ -81,6 +86,36 @@ func factsC02(r *Repo) []Fact {
 		out = append(out, boolFact("workflowIsEagerDag", eager && dag, "compose/graph.go compile: workflow ⇒ runTypeDAG and eager"))
 	} else {
 		out = append(out, unknownFact("workflowIsEagerDag", "Bool", "false", "compose/graph.go", "graph.compile not found"))
+	}
+	return out
+}
+
+// ---- translated code (gotrans): compose/dag.go ----
+
+func init() { c02Trans = transC02 }
+
+func transC02(r *Repo) []Fact {
+	u := newTransUnit(r, "compose", "C02")
+	u.declareEnum("dependencyState", "Dep", []string{"Dep.waiting", "Dep.ready", "Dep.skipped"})
+	u.absentTypes["streamReader"] = true
+	u.externs["ch.zeroValue"] = externSig{lean: "ext.zeroValue", results: []*gty{tyAny}}
+	u.externs["ch.emptyStream"] = externSig{lean: "ext.emptyStream", results: []*gty{tyAny}}
+	u.externs["mergeValues"] = externSig{lean: "ext.mergeValues", results: []*gty{tyAny, tyErr}}
+	u.declareStruct("dagChannel", map[string]bool{"zeroValue": true, "emptyStream": true})
+	names := []string{"reportValues", "reportDependencies", "reportSkip", "get"}
+	var out []Fact
+	all := true
+	for _, n := range names {
+		ok := u.transFunc("dagChannel", n, "dagChannel_"+n)
+		all = all && ok
+	}
+	if leanOutDir != "" {
+		writeIfChanged(leanOutDir+"/TransC02.lean", u.render())
+	}
+	if all && len(u.errs) == 0 {
+		out = append(out, boolFact("dagChannelTranslated", true, "compose/dag.go: dagChannel.{reportValues,reportDependencies,reportSkip,get} translated to Gen/TransC02.lean"))
+	} else {
+		out = append(out, unknownFact("dagChannelTranslated", "Bool", "false", "compose/dag.go", "not in the translated subset: "+strings.Join(u.errs, "; ")))
 	}
 	return out
 }
